@@ -227,11 +227,18 @@ where
             if self.card_command(CMD18, start_idx)? != 0x00 {
                 return Err(Error::ReadError);
             }
+            let mut result = Ok(());
             for block in blocks.iter_mut() {
-                self.read_data(&mut block.contents)?;
+                result = self.read_data(&mut block.contents);
+                if result.is_err() {
+                    break;
+                }
             }
-            // Stop the read
-            self.card_command(CMD12, 0)?;
+            // Stop the read - also when a block failed, because the card keeps
+            // sending blocks until it is told to stop
+            let stop = self.card_command(CMD12, 0);
+            result?;
+            stop?;
         }
         Ok(())
     }
@@ -270,21 +277,34 @@ where
                 // the card did not accept the command: it is not waiting for data
                 return Err(Error::WriteError);
             }
+            let mut result = Ok(());
             for block in blocks.iter() {
-                self.wait_not_busy(Delay::new_write())?;
-                self.write_data(WRITE_MULTIPLE_TOKEN, &block.contents)?;
+                result = self
+                    .wait_not_busy(Delay::new_write())
+                    .and_then(|_| self.write_data(WRITE_MULTIPLE_TOKEN, &block.contents));
+                if result.is_err() {
+                    break;
+                }
             }
-            // Stop the write
-            self.wait_not_busy(Delay::new_write())?;
-            self.write_byte(STOP_TRAN_TOKEN)?;
-            // The card takes one byte to react to the stop token and is busy
-            // afterwards. Skip that byte and wait, or the next command's
-            // not-busy check sees the idle byte and the command goes out
-            // while the card is still programming.
-            let _ = self.read_byte()?;
-            self.wait_not_busy(Delay::new_write())?;
+            // Stop the write - also when a block failed, because the card
+            // keeps waiting for data until it is told to stop
+            let stop = self.stop_multi_write();
+            result?;
+            stop?;
         }
         Ok(())
+    }
+
+    /// End a multi-block write with the stop token.
+    fn stop_multi_write(&mut self) -> Result<(), Error> {
+        self.wait_not_busy(Delay::new_write())?;
+        self.write_byte(STOP_TRAN_TOKEN)?;
+        // The card takes one byte to react to the stop token and is busy
+        // afterwards. Skip that byte and wait, or the next command's
+        // not-busy check sees the idle byte and the command goes out
+        // while the card is still programming.
+        let _ = self.read_byte()?;
+        self.wait_not_busy(Delay::new_write())
     }
 
     /// Determine how many blocks this device can hold.
